@@ -258,12 +258,12 @@ def check(ctx):
     tn = ctx.drive(drv, nscript, "cstring_nest", timeout=1500, lines_per_proc=8)
     ctx.extra["interrupted_calls"] = len(nest)
     bad = ctx.judge("CStringTrace", [t, tb, tn], shards=16)
+    for b in bad: b["driver"] = "drv_cstring"
     # the second build configuration (size-optimised, plain char unsigned) on part of the executions
     ta = ctx.drive(build(ctx, alt=True), core.subset_executions(script, ctx.seed, 1.0 if ctx.thorough else 0.34), "cstring_alt")
     bada = ctx.judge("CStringTrace", [ta], shards=16)
     for b in bada: b["driver"] = "drv_cstring@alt"
     bad += bada
-    for b in bad: b["driver"] = "drv_cstring"
     ctx.report(bad)
     ctx.assumptions += [
         "arguments satisfy the functions' preconditions (strings terminated inside the arena - except the n-bounded sources of strnlen/strndup/strncmp/strncasecmp/strncpy/strncat, which are also given exactly n unterminated bytes ending with the heap block -, destinations large enough, no overlap except for memmove); the generator chooses such arguments, TLC judges the result",
